@@ -1,8 +1,8 @@
 (* Model entry point for stage C of C08, full document (extension).
    run_xtrace env doc steps : list Z
-     env   = (flips, dos, ansi, sfonts, srest): flip maps (id, flip-x, flip-y) of the fonts the cases use, DOS_DEFAULT_PALETTE (16 rgb numbers), the font id of
+     env   = (flips, dos, ansi, sfonts, srest, rot): flip maps (id, flip-x, flip-y) of the fonts the cases use, DOS_DEFAULT_PALETTE (16 rgb numbers), the font id of
              ANSI font page k (0 = unsupported), the ids of the SAUCE fonts of the harness, the `rest` numbers of its SAUCE
-             records 0..3 (and of record 0 with use_ice) — all read from the implementation by the probes `c08flipf` / `c08probe`
+             records 0..3 (and of record 0 with use_ice), the character map of rotate_layer — all read from the implementation by the probes `c08flipf` / `c08probe`
      doc   = (dspec of Run/RunC08.v, ice, palette mode, font mode, sauce flag (0 none, 1 buffer size, 2 another size),
               extra font slots (slot, ansi page), caret font page)
    Output: per state the block of Run/RunC08.v followed by
@@ -13,7 +13,7 @@ From IE Require Import Gen.UndoGen Model.Undo Model.EditModel Model.EditOps Mode
 Import ListNotations.
 Local Open Scope Z_scope.
 
-Definition xenv := (list (Z * list Z * list Z) * list Z * list Z * list Z * list Z)%type.
+Definition xenv := (list (Z * list Z * list Z) * list Z * list Z * list Z * list Z * list Z)%type.
 (* flip maps per font id: (id, flip-x map, flip-y map) *)
 Fixpoint find_flip (l : list (Z * list Z * list Z)) (id : N) : option (list Z * list Z) :=
   match l with
@@ -22,18 +22,20 @@ Fixpoint find_flip (l : list (Z * list Z * list Z)) (id : N) : option (list Z * 
   end.
 Definition tab_of (tbl : list Z) : N -> N := fun ch => match nth_error tbl (N.to_nat ch) with Some v => Z.to_N v | None => ch end.
 Definition env_ftx (v : xenv) (id : N) : option (N -> N) :=
-  let '(fl, _, _, _, _) := v in match find_flip fl id with Some (fx, _) => Some (tab_of fx) | None => None end.
+  let '(fl, _, _, _, _, _) := v in match find_flip fl id with Some (fx, _) => Some (tab_of fx) | None => None end.
 Definition env_fty (v : xenv) (id : N) : option (N -> N) :=
-  let '(fl, _, _, _, _) := v in match find_flip fl id with Some (_, fy) => Some (tab_of fy) | None => None end.
-Definition env_dos (v : xenv) : palette := let '(_, dos, _, _, _) := v in map Z.to_N dos.
+  let '(fl, _, _, _, _, _) := v in match find_flip fl id with Some (_, fy) => Some (tab_of fy) | None => None end.
+Definition env_dos (v : xenv) : palette := let '(_, dos, _, _, _, _) := v in map Z.to_N dos.
+(* ROTATE_TABLE is applied to `ch as u8` *)
+Definition env_rot (v : xenv) : N -> N := let '(_, _, _, _, _, rot) := v in fun ch => if (ch <? 256)%N then tab_of rot ch else tab_of rot (ch mod 256)%N.
 Definition env_ansi (v : xenv) (page : Z) : option N :=
-  let '(_, _, ansi, _, _) := v in
+  let '(_, _, ansi, _, _, _) := v in
   if page <? 0 then None else match nth_error ansi (Z.to_nat page) with Some 0 => None | Some id => Some (Z.to_N id) | None => None end.
 Definition env_sfont (v : xenv) (i : Z) : option N :=
-  let '(_, _, _, sf, _) := v in
+  let '(_, _, _, sf, _, _) := v in
   if i <? 0 then None else match nth_error sf (Z.to_nat i) with Some 0 => None | Some id => Some (Z.to_N id) | None => None end.
 Definition env_srest (v : xenv) (k : Z) : N :=
-  let '(_, _, _, _, sr) := v in match nth_error sr (Z.to_nat k) with Some r => Z.to_N r | None => 0%N end.
+  let '(_, _, _, _, sr, _) := v in match nth_error sr (Z.to_nat k) with Some r => Z.to_N r | None => 0%N end.
 
 Definition xdspec := (dspec * Z * Z * Z * Z * list (Z * Z) * Z)%type.
 
@@ -60,7 +62,8 @@ Inductive xstep :=
 | XMerge (n : Z) | XAnchor | XStamp | XPaste (x y w h : Z) (cs : list Z)
 | XCrop | XCropRect (x y w h : Z) | XResizeL (w h : Z)
 | XAddMask | XInverseSel | XEnumSel (k : Z) | XClrSel | XErase
-| XCenterLine | XJLineLeft | XJLineRight | XEraseRow | XEraseRowS | XEraseRowE | XEraseCol | XEraseColS | XEraseColE.
+| XCenterLine | XJLineLeft | XJLineRight | XEraseRow | XEraseRowS | XEraseRowE | XEraseCol | XEraseColS | XEraseColE
+| XRotateL | XDelRow | XInsRow | XDelCol | XInsCol | XScrUp | XScrDown.
 
 (* the callback of the harness operation `enumsel k` *)
 Definition enum_cb (k : Z) (x y : Z) (c : cell) (_ : bool) : option bool :=
@@ -106,6 +109,13 @@ Definition run_xstep (v : xenv) (s : xstep) (e : XE) : res XE :=
   | XEraseCol => x_erase_column e
   | XEraseColS => x_erase_column_to_start e
   | XEraseColE => x_erase_column_to_end e
+  | XRotateL => x_rotate_layer (env_rot v) e
+  | XDelRow => x_delete_row e
+  | XInsRow => x_insert_row e
+  | XDelCol => x_delete_column e
+  | XInsCol => x_insert_column e
+  | XScrUp => x_scroll_area_whole true e
+  | XScrDown => x_scroll_area_whole false e
   end.
 
 Definition obs_fonts (f : fonts) : list Z :=
@@ -135,6 +145,7 @@ Fixpoint run_xsteps (v : xenv) (l : list xstep) (e : XE) : list Z :=
   | s :: t =>
     match run_xstep v s e with
     | Ok e' => xobs e' ++ run_xsteps v t e'
+    | Err 99 => [9]                   (* outside the model (see Model/DocOps.v): the case is skipped *)
     | Err _ => [1]
     | Panic _ => [2]
     end
